@@ -222,7 +222,31 @@ func checkStopOrder(w *World, r *Report) {
 		var flagIf *ifFact
 		facts := w.ifFacts(s)
 		for i, f := range facts {
-			if strings.Contains(f.Atom.L, "LoadInt32(recv.cancelled)") && f.Atom.R == "1" && f.Atom.Op == "==" {
+			isFlag := strings.Contains(f.Atom.L, "LoadInt32(recv.cancelled)") && f.Atom.R == "1" && f.Atom.Op == "=="
+			if !isFlag && f.Atom.Op == "true" {
+				// a named predicate whose only result is that comparison
+				cond := w.Resolve(f.If.Cond)
+				if u, ok := cond.(*ssa.UnOp); ok && u.Op.String() == "!" {
+					cond = w.Resolve(u.X)
+				}
+				if c, ok := cond.(*ssa.Call); ok {
+					if g := c.Call.StaticCallee(); g != nil && g.Blocks != nil && w.InModule(g) && len(c.Call.Args) == 1 && w.AP(c.Call.Args[0]) == "recv" {
+						pr := w.EnumPaths(g, EnumOpts{})
+						isFlag = len(pr.Paths) > 0
+						for _, p := range pr.Paths {
+							if len(p.RetVals) != 1 {
+								isFlag = false
+								continue
+							}
+							op, l, rr, neg, _ := w.condAtom(p.RetVals[0], 0)
+							if !(op == "==" && !neg && strings.Contains(l, "LoadInt32(recv.cancelled)") && rr == "1") {
+								isFlag = false
+							}
+						}
+					}
+				}
+			}
+			if isFlag {
 				// the test that lies on the scheduling loop (a later re-test after the loop is not it)
 				if (PathQuery{Fn: s, Start: []ssa.Instruction{f.If}, Target: func(x ssa.Instruction) bool { return x == ssa.Instruction(f.If) }}).Find().Found {
 					flagIf = &facts[i]
